@@ -780,6 +780,10 @@ func (x *Exec) jump(st *State, fr *Frame, b *ssa.BasicBlock) bool {
 						sc.vars["head_"+phi.Comment] = hv
 					}
 				}
+				if snap := fr.loopEntry[b.Index]; snap != nil {
+					sc.headHeap, sc.headWorlds = snap.heap, snap.worlds
+					sc.headCounts, sc.headSyms = snap.counts, snap.syms
+				}
 				t, err := x.evalBool(st, fr, cl.E, sc)
 				if err != nil {
 					x.unsupported("loop %s back_edge_ensures in %s: %v", ref, CanonName(fr.fn), err)
@@ -883,7 +887,13 @@ func (x *Exec) jump(st *State, fr *Frame, b *ssa.BasicBlock) bool {
 			}
 			st.assume(t)
 		}
-		snap := &loopSnap{}
+		snap := &loopSnap{heap: copyHeap(st.heap), worlds: copyWorlds(st.worlds), counts: map[string]int{}, syms: map[string]Term{}}
+		for k, v := range st.callCounts {
+			snap.counts[k] = v
+		}
+		for k, v := range st.callSyms {
+			snap.syms[k] = v
+		}
 		for _, cl := range decs {
 			sc := x.scopeFor(st, fr)
 			sc.addVars(vars)
